@@ -218,7 +218,8 @@ def templates(W, tier, rng):
                 yield dict(fam='unary', op=op, t=t, k=k, pos='value', W=W)
     # casts
     for cast in ('byte_int', 'bool_int', 'int_byte', 'bool_byte', 'int_bool', 'byte_bool', 'implicit_byte_int',
-                 'string_bool', 'array_bool', 'int_byte_int', 'narrow_store', 'narrow_elem', 'narrow_arg', 'narrow_ret'):
+                 'string_bool', 'array_bool', 'int_byte_int', 'narrow_store', 'narrow_elem', 'narrow_arg', 'narrow_ret',
+                 'narrow_index_store', 'narrow_index_store_word', 'narrow_index_compound', 'narrow_index_load', 'narrow_length', 'narrow_arith'):
         for k in (KINDS[:-1] if cast not in ('string_bool', 'array_bool') else ['param']):
             for pos in (('value', 'branch', 'defeat') if cast.endswith('_bool') else ('value',)):
                 yield dict(fam='cast', cast=cast, k=k, pos=pos, W=W)
@@ -393,7 +394,8 @@ def make(task):
             return src, (lambda T, inputs: observe(T, pos, [([], int(ln != 0))])), arrays
         srct = {'byte_int': 'byte', 'bool_int': 'int', 'int_byte': 'int', 'bool_byte': 'int', 'int_bool': 'int',
                 'byte_bool': 'byte', 'implicit_byte_int': 'byte', 'int_byte_int': 'int', 'narrow_store': 'int',
-                'narrow_elem': 'int', 'narrow_arg': 'int', 'narrow_ret': 'int'}[c]
+                'narrow_elem': 'int', 'narrow_arg': 'int', 'narrow_ret': 'int', 'narrow_index_store': 'int', 'narrow_index_compound': 'int',
+                'narrow_index_load': 'int', 'narrow_length': 'int', 'narrow_arith': 'int', 'narrow_index_store_word': 'int'}[c]
         l = opnd('A', srct, k)
         x = l.text
         extra = set(helpers)
@@ -419,6 +421,21 @@ def make(task):
         elif c == 'narrow_ret':
             extra.add('byte narrow(int v) { return v is byte; }')
             body, spec, p2 = 'sleep(narrow(%s));' % x, (lambda T, v: T.low_byte_word(v)), 'value'
+        # a narrowing cast of a computed value used directly where the generator reads a "fast" operand: store index, compound-store
+        # index, load index, dynamic length, arithmetic operand (the low byte must be taken before the use, whatever the use is)
+        elif c == 'narrow_index_store':
+            body, spec, p2 = 'byte[] nb = [1, 2, 3, 4]; nb[(%s %% 4 + 768) is byte] = 9; sleep(nb[%s %% 4]);' % (x, x), (lambda T, v: 9), 'value'
+        elif c == 'narrow_index_store_word':
+            body, spec, p2 = 'int[] nw = [1, 2, 3, 4]; nw[(%s %% 4 + 256) is byte] = 9; sleep(nw[%s %% 4]);' % (x, x), (lambda T, v: 9), 'value'
+        elif c == 'narrow_index_compound':
+            body, spec, p2 = ('byte[] nb = [1, 2, 3, 4]; nb[(%s %% 4 + 768) is byte] += 5; sleep(nb[%s %% 4]);' % (x, x),
+                              (lambda T, v: T.arith('add', T.arith('mod', v, 4), 6)), 'value')
+        elif c == 'narrow_index_load':
+            body, spec, p2 = 'byte[] nb = [1, 2, 3, 4]; sleep(nb[(%s %% 4 + 512) is byte]);' % x, (lambda T, v: T.arith('add', T.arith('mod', v, 4), 1)), 'value'
+        elif c == 'narrow_length':
+            body, spec, p2 = 'int nv[(%s %% 3 + 257) is byte]; sleep(nv.length);' % x, (lambda T, v: T.arith('add', T.arith('mod', v, 3), 1)), 'value'
+        elif c == 'narrow_arith':
+            body, spec, p2 = 'sleep(((%s + 0) is byte) + 1);' % x, (lambda T, v: T.arith('add', T.low_byte_word(v), 1)), 'value'
         elif c in ('int_bool', 'byte_bool'):
             body, spec, p2 = use_text(pos, '%s is bool' % x, True), (lambda T, v: T.b2w(T.cmp('ne', v, 0))), pos
         else:
